@@ -164,7 +164,19 @@ def strat_gen(draw, tier):
         a = 'ACTUATE' if draw(st.integers(0, 5)) else draw(gen.action_s)
         if need not in chain:
             chain = chain + [need]
-    return {'state': sd, 'action': a, 'chain': chain, 'seed': draw(gen.seed_s)}
+    observe = None
+    if draw(st.integers(0, 2)) == 0:
+        # the agent looks before it acts (any deterministic occluding function, also with the view covering the grid exactly)
+        f = draw(st.sampled_from(['partially_occluded', 'raytracing']))
+        area = draw(gen.area_s(3, ymax_zero=True))
+        if draw(st.booleans()):
+            h, w = M.shape(sd)
+            y, x = sd['agent'][0], sd['agent'][1]
+            if y == h - 1 or not M.blocks_movement(sd['grid'][h - 1][x]):
+                sd['agent'][0], sd['agent'][2] = h - 1, 'F'
+                area = [[-(h - 1), 0], [-x, w - 1 - x]]
+        observe = {'f': f, 'area': area}
+    return {'state': sd, 'action': a, 'chain': chain, 'seed': draw(gen.seed_s), 'observe': observe}
 
 
 def doors_boxes(d):
@@ -173,7 +185,18 @@ def doors_boxes(d):
 
 def oracle_gen(case, ctx):
     sd, a, chain = case['state'], case['action'], case['chain']
-    nd = guarded(ctx, f'{chain}', run_chain, chain, sd, a, case['seed'])
+    if case.get('observe'):
+        from vgv import obsutil
+        S = objs.build_state(sd)
+        guarded(ctx, 'observation', obsutil.observe, case['observe']['f'], S, case['observe']['area'])
+        now = objs.canon_state(S)
+        if doors_boxes(now) != doors_boxes(sd) or now != sd:
+            ctx.fail(f'looking at the world ({case["observe"]["f"]}, area {case["observe"]["area"]}) changed the state (doors/boxes {doors_boxes(sd)} -> {doors_boxes(now)}; cells now Hidden: {[p for p in M.positions(now) if M.cell(now, p) == "H"][:6]})',
+                     {'kind': 'observed_change'})
+        fn = envs.mk_transition(chain)
+        nd = objs.canon_state(guarded(ctx, f'{chain}', transition_with_copy, fn, S, objs.action(a), rng=make_rng(case['seed'])))
+    else:
+        nd = guarded(ctx, f'{chain}', run_chain, chain, sd, a, case['seed'])
     outs = M.step_outcomes(sd, a, chain)
     if outs is not None and json.dumps(nd, sort_keys=True) not in outs:
         ctx.fail(f'{a} with {chain}: next state is not one the reference model allows', {'kind': 'model_mismatch', 'action': a})
@@ -223,6 +246,8 @@ def oracle_gen(case, ctx):
         cl.append('actuate_box')
     if changed:
         cl.append('changed')
+    if case.get('observe'):
+        cl.append('observed_first')
     ctx.ev.case(case, nt=bool(cl), classes=cl or ['other'], key=[sd, a, chain])
 
 
@@ -285,7 +310,7 @@ CHECKS = [
           rule='4 headings x 10 contents (incl. nested boxes, doors) x 3 held items x 7 placements x 8 actions'),
     Check('generated', oracle_gen, strategy=strat_gen, examples={'quick': 1000, 'thorough': 4000},
           rule='states with several doors/boxes (boxes containing doors) x random chains: model outcome membership; only a faced ACTUATE changes a door/box; keys not consumed',
-          required=['actuate_door:LOCKED:match', 'actuate_door:LOCKED:nomatch', 'actuate_door:CLOSED:nomatch', 'actuate_box', 'changed', 'locked_same_colour_non_key']),
+          required=['actuate_door:LOCKED:match', 'actuate_door:LOCKED:nomatch', 'actuate_door:CLOSED:nomatch', 'actuate_box', 'changed', 'locked_same_colour_non_key', 'observed_first']),
     Check('keydoor_histories', oracle_hist, strategy=strat_hist, examples={'quick': 60, 'thorough': 300},
           rule='shipped key-door environments: model-plan prefixes (with and without picking the key) followed by random actions; every door change must be a faced ACTUATE with the matching key; never beyond the wall while locked',
           required=['door_opened', 'locked_refused']),
